@@ -1,4 +1,4 @@
-import SpecVerif.Proofs.C20
+import SpecVerif.Proofs.C20Micro
 /-!
 # C20 — copying leaves process-global state untouched and is safe across threads
 
@@ -220,6 +220,71 @@ theorem history_restored (foreign : Bool) (h : List HistOp) :
   refine ⟨?_, hp, hz, hi.noFail 0⟩
   show (execHistory 0 h (init foreign 1)).table = _
   rw [hi.unpatched hp, ho]; simp [init]
+
+/-! ## statement granularity: `enter`/`exit` need not be assumed atomic -/
+
+open Micro in
+/-- The invariant of the statement-level model (pre-emption between ANY two statements of
+`__enter__`/`__exit__`, any number of threads) is kept by every statement of every thread. -/
+theorem micro_inv_reachable {foreign : Bool} {n : Nat} {s : MSys} (h : MReachable foreign n s) : MInv s := by
+  induction h with
+  | init => exact minv_init _ _
+  | step t a _ hs ih => exact minv_step ih t a hs
+
+open Micro in
+/-- Statement-level safety, under every interleaving of single statements: no copy ever
+fails and `__exit__` never raises; a thread inside a protected block always finds a reducer;
+and when no thread is inside `__enter__`/`__exit__`/a protected block the table is what it
+was before the library was used, with counter, flag and lock reset. -/
+theorem micro_safe {foreign : Bool} {n : Nat} {s : MSys} (h : MReachable foreign n s) :
+    s.failed = false
+    ∧ (∀ (t : Nat) (th : MT), s.threads[t]? = some th → th.pc = MPC.idle → 0 < th.depth → s.table ≠ none)
+    ∧ ((∀ (t : Nat) (th : MT), s.threads[t]? = some th → th.pc = MPC.idle ∧ th.depth = 0) →
+        s.table = s.orig ∧ s.patched = false ∧ s.rc = 0 ∧ s.lock = none) := by
+  have hi := micro_inv_reachable h
+  refine ⟨hi.noFail, fun t th ht hpc hd => copier_finds_entry hi t th ht hpc hd, ?_⟩
+  intro hq
+  have hlock : s.lock = none := by
+    cases hl : s.lock with
+    | none => rfl
+    | some u =>
+      have hult := hi.lockLt u hl
+      have hu : s.threads[u]? = some s.threads[u] := List.getElem?_eq_getElem hult
+      have := (hi.lockPc u _ hu).2 hl
+      rw [(hq u _ hu).1] at this; cases this
+  have hD : sumDepth s.threads = 0 := sumDepth_zero _ (fun t th ht => (hq t th ht).2)
+  have hhp : holderPc s = .idle := by simp [holderPc, hlock]
+  have hrow := hi.row
+  have hrc := hi.rcEq
+  rw [hhp, hD] at hrow hrc
+  simp only [Row] at hrow
+  have hp : s.patched = false := by
+    cases hp : s.patched with
+    | false => rfl
+    | true => have := (hrow.1 hp).2.2; omega
+  exact ⟨hrow.2.1 hp, hp, by simpa [adj] using hrc, hlock⟩
+
+open Micro in
+/-- `mrunSched` (executable) stays inside `MReachable`. -/
+theorem mrunSched_reachable {foreign : Bool} {n : Nat} {s : MSys} (h : MReachable foreign n s)
+    (sched : List (Nat × MAct)) : MReachable foreign n (mrunSched s sched) := by
+  induction sched generalizing s with
+  | nil => exact h
+  | cons x xs ih =>
+    obtain ⟨t, a⟩ := x
+    simp only [mrunSched]
+    split
+    · exact ih h
+    · rename_i s' hs; exact ih (MReachable.step t a h hs)
+
+open Micro in
+/-- non-vacuity: thread 1 is pre-empted in the middle of `__exit__` (entry already deleted,
+flag not yet cleared) while thread 0 waits for the lock in `__enter__` -/
+example :
+    let s := mrunSched (minit false 2)
+      [(1, .enter), (1, .next), (1, .next), (1, .next), (1, .next), (1, .next), (1, .next), (1, .copy),
+       (1, .exit), (1, .next), (1, .next), (1, .next), (0, .enter), (0, .next), (1, .next)]
+    (s.threads.map (·.pc)) = [.eAcq, .xClrP] ∧ s.table = none ∧ s.patched = true ∧ s.lock = some 1 := by decide
 
 /-! ## the code before the `fix:` commits violates the property (`decide`d witnesses) -/
 
